@@ -21,10 +21,28 @@ import TensoraVerif.Lemmas.Sparse1Generate
 import TensoraVerif.Lemmas.Dense2Generate
 import TensoraVerif.Lemmas.SpmvGenerate
 import TensoraVerif.Lemmas.SpmulGenerate
+import TensoraVerif.Lemmas.SpaddModel
+import TensoraVerif.Lemmas.DenseNModel
 open TV
 
 namespace Drv
 open TV.Storage
+
+/-- the terminal expression at the bottom of a linear nest of `.iter` nodes -/
+def nestTerminal : TV.Graph.IGraph → Option TV.Graph.IdExpr
+  | .terminal e => some e
+  | .iter _ _ n => nestTerminal n
+  | .sum _ => none
+
+/-- `g` is the nest `.iter i₁ (some ⟨o,0⟩) (.iter i₂ (some ⟨o,1⟩) … (.terminal _))` over exactly the index list -/
+def nestOK (o : TV.Graph.TensorId) : List String → Nat → TV.Graph.IGraph → Bool
+  | [], _, .terminal _ => true
+  | i :: rest, l, .iter j (some lf) n => i == j && decide (lf.tensor = o) && lf.layer == l && nestOK o rest (l + 1) n
+  | _, _, _ => false
+
+def tensorIdOf (d : TV.Alg.DAssign) (fs : TV.Graph.Formats) : Option TV.Graph.TensorId :=
+  TV.Graph.tensorId 0 d.tname fs d.tidx
+
 
 def modeOf : Sexp → Option Mode
   | .atom "d" => some .dense
@@ -387,14 +405,26 @@ def handle (cmd : String) (args : List Sexp) : Sexp :=
       let d := Alg.desugar a
       match Graph.toIterationGraphs d fs with
       | .ok (g :: _) =>
+        -- denseN: the nest over the target's index list, all dense, element-wise (orders >= 2; order 1 is dense1)
+        let isN := a.tidx.length >= 2 && a.tidx.eraseDups.length == a.tidx.length && plain && Dense2.denseFormats fs &&
+          (match tensorIdOf d fs with
+           | some o => DenseN.isLeaf a.tidx o && (match nestTerminal g with
+              | some e => DenseN.isExpr a.tidx e && nestOK o a.tidx 0 g && (ToIr.leaves e).all (fun t => t.name != o.name)
+              | none => false)
+           | none => false)
+        if isN then .atom "denseN" else
         match g with
         | .iter i (some ⟨o, 0⟩) (.terminal e) =>
           let one := match ToIr.leaves e with | [bT] => Sparse1.isExpr i bT e && fnames == [o.name, bT.name] | _ => false
           let mul2 := match e with
             | .mul (.tensor bT) (.tensor cT) => Spmul.isClass i o bT cT && bT.name != cT.name
             | _ => false
+          let add2 := match e with
+            | .add (.tensor bT) (.tensor cT) => Spmul.isClass i o bT cT && bT.name != cT.name
+            | _ => false
           if plain && Sparse1.isSp i o && Sparse1.sparseFormats fs && one then .atom "sparse1"
-          else if plain && Sparse1.sparseFormats fs && mul2 then .atom "spmul" else .atom "none"
+          else if plain && Sparse1.sparseFormats fs && mul2 then .atom "spmul"
+          else if plain && Sparse1.sparseFormats fs && add2 then .atom "spadd" else .atom "none"
         | .iter i (some ⟨o, 0⟩) (.iter j none (.terminal e)) =>
           let csr := match e with
             | .mul (.tensor tB) (.tensor tC) =>
